@@ -1785,7 +1785,12 @@ class Method:
                     continue
                 name = f.strip()
                 field = self.input.get_field(*name.split("."))
-                name += "_" if field.field_pb.name in utils.RESERVED_NAMES else ""
+                # The key is an attribute path on the request: every
+                # segment named by a reserved word carries the suffix.
+                name = ".".join(
+                    segment + "_" if segment in utils.RESERVED_NAMES else segment
+                    for segment in name.split(".")
+                )
                 if cross_pkg_request and not field.is_primitive:
                     # This is not a proto-plus wrapped message type,
                     # and setting a non-primitive field directly is verboten.
